@@ -783,3 +783,141 @@ func CompleteWrappers(p *core.Prog, r *core.Report) {
 		r.Und("COMPLETE-WRAPPERS", "gts.asComplete|kinds", p.Pos(fd.Pos()), "no Location kind that contains Locations found in package gts")
 	}
 }
+
+// StrandComplement decides STRAND-COMPLEMENT on gts.CheckStrand: the strand of
+// complement(x) is the opposite of the strand of x - reverse for a forward x,
+// forward for a reverse x, both for an x on both strands. The parser keeps
+// complement(join(a,complement(b))) as written, so a constant answer
+// ("a complement is on the reverse strand") calls a location with residues on
+// both strands strictly reverse, and the strand filters built on CheckStrand
+// select by something other than the denoted residues.
+func StrandComplement(p *core.Prog, r *core.Report) {
+	r.Rule("STRAND-COMPLEMENT", "the Complemented clause of gts.CheckStrand, evaluated for the three strands its inner location can have, returns the opposite strand (forward <-> reverse, both -> both): it is a function of CheckStrand(inner), not a constant", 1)
+	info := p.Info(core.PkgGts)
+	fd := p.FuncDecl(core.PkgGts, "CheckStrand")
+	key := "gts.CheckStrand|Complemented"
+	if fd == nil || fd.Body == nil {
+		r.Und("STRAND-COMPLEMENT", key+"|anchor", "-", "anchor-unresolved")
+		return
+	}
+	strandConst := func(e ast.Expr) (string, bool) {
+		if o := core.ObjOf(info, e); o != nil {
+			if c, ok := o.(*types.Const); ok && core.NamedOf(c.Type()) == core.PkgGts+".Strand" {
+				return c.Name(), true
+			}
+		}
+		return "", false
+	}
+	var clause *ast.CaseClause
+	var bound types.Object
+	ast.Inspect(fd.Body, func(n ast.Node) bool {
+		ts, ok := n.(*ast.TypeSwitchStmt)
+		if !ok {
+			return true
+		}
+		for _, st := range ts.Body.List {
+			cc := st.(*ast.CaseClause)
+			for _, e := range cc.List {
+				if t := info.TypeOf(e); t != nil && core.NamedOf(t) == core.PkgGts+".Complemented" && len(cc.List) == 1 {
+					clause, bound = cc, info.Implicits[cc]
+				}
+			}
+		}
+		return true
+	})
+	if clause == nil {
+		r.Bad("STRAND-COMPLEMENT", key, p.Pos(fd.Pos()), "CheckStrand has no clause of its own for a Complemented location: it is treated like a forward location")
+		return
+	}
+	self, _ := info.Defs[fd.Name].(*types.Func)
+	// isInner: CheckStrand(v.Location) (or of a local holding it)
+	asg := core.Assigns(info, clause)
+	isInner := func(e ast.Expr) bool {
+		c, ok := ast.Unparen(core.Origin(info, asg, e)).(*ast.CallExpr)
+		if !ok || core.Callee(info, c) != self || len(c.Args) != 1 {
+			return false
+		}
+		sel, ok := ast.Unparen(core.Origin(info, asg, c.Args[0])).(*ast.SelectorExpr)
+		return ok && sel.Sel.Name == "Location" && core.ObjOf(info, sel.X) == bound && bound != nil
+	}
+	var run func(stmts []ast.Stmt, inner string) (string, bool)
+	run = func(stmts []ast.Stmt, inner string) (string, bool) {
+		for _, st := range stmts {
+			switch x := st.(type) {
+			case *ast.AssignStmt:
+				continue // a local holding the inner strand, resolved through Origin
+			case *ast.ReturnStmt:
+				if len(x.Results) != 1 {
+					return "", false
+				}
+				if isInner(x.Results[0]) {
+					return inner, true
+				}
+				return strandConst(x.Results[0])
+			case *ast.SwitchStmt:
+				if x.Tag == nil || !isInner(x.Tag) {
+					return "", false
+				}
+				var def *ast.CaseClause
+				for _, cc := range x.Body.List {
+					cl := cc.(*ast.CaseClause)
+					if cl.List == nil {
+						def = cl
+						continue
+					}
+					for _, ce := range cl.List {
+						if name, ok := strandConst(ce); ok && name == inner {
+							return run(cl.Body, inner)
+						}
+					}
+				}
+				if def != nil {
+					return run(def.Body, inner)
+				}
+			case *ast.IfStmt:
+				be, ok := ast.Unparen(x.Cond).(*ast.BinaryExpr)
+				if !ok || (be.Op != token.EQL && be.Op != token.NEQ) || x.Init != nil {
+					return "", false
+				}
+				var name string
+				var okc bool
+				switch {
+				case isInner(be.X):
+					name, okc = strandConst(be.Y)
+				case isInner(be.Y):
+					name, okc = strandConst(be.X)
+				}
+				if !okc {
+					return "", false
+				}
+				if (name == inner) == (be.Op == token.EQL) {
+					return run(x.Body.List, inner)
+				}
+				if x.Else != nil {
+					switch el := x.Else.(type) {
+					case *ast.BlockStmt:
+						return run(el.List, inner)
+					case *ast.IfStmt:
+						return run([]ast.Stmt{el}, inner)
+					}
+				}
+			default:
+				return "", false
+			}
+		}
+		return "", false
+	}
+	want := map[string]string{"StrandForward": "StrandReverse", "StrandReverse": "StrandForward", "StrandBoth": "StrandBoth"}
+	for _, inner := range []string{"StrandForward", "StrandReverse", "StrandBoth"} {
+		got, ok := run(clause.Body, inner)
+		if !ok {
+			r.Und("STRAND-COMPLEMENT", key, p.Pos(clause.Pos()), "the clause cannot be interpreted (expected returns of Strand constants under a switch / comparisons on CheckStrand of the inner location)")
+			return
+		}
+		if got != want[inner] {
+			r.Bad("STRAND-COMPLEMENT", key, p.Pos(clause.Pos()), fmt.Sprintf("for an inner location that is %s the complement is reported %s, not %s: complement(join(1..3,complement(6..8))), which the parser keeps as written and which has residues on both strands, is reported strictly reverse, so `gts select -s reverse` accepts it and Not(Or(ForwardStrand, ReverseStrand)) misses it", inner, got, want[inner]))
+			return
+		}
+	}
+	r.Ok("STRAND-COMPLEMENT", key, p.Pos(clause.Pos()), "the opposite strand of the inner location for all three cases")
+}
